@@ -117,6 +117,13 @@ class StubSerial:
         if len(d) > n:
             self._unread(d[n:])
             d = d[:n]
+        # a larger read also takes what is already buffered behind it (events that cost no time), up to n bytes
+        while d and len(d) < n and self.rx and not self.rx[0][1] and self.rx[0][0]:
+            more, _ = self.rx.pop(0)
+            if len(d) + len(more) > n:
+                self._unread(more[n - len(d):])
+                more = more[:n - len(d)]
+            d = d + more
         if self.clock is not None:
             self.clock.ms += dt
         return d
@@ -546,17 +553,25 @@ def gpsd_setup_cases(res, prop, rng, n, PATHS, jtok=None, cases=None):
         lists = []
         chunks = []
         ctoks = []
+        per_chunk = []
         for _c in range(rng.randrange(1, 4)):
             devs = rng.sample(PATHS, rng.randrange(0, 4))
             lists.append(devs)
             line = json.dumps({'class': 'DEVICES', 'devices': [dict({'class': 'DEVICE', 'path': p_}, **rng.choice([{}, {'driver': 'NMEA0183'}, {'driver': None}, {'driver': 'u-blox'}])) for p_ in devs]}, ensure_ascii=rng.random() < 0.5).encode('utf-8')
             dv = {'class': 'DEVICES', 'devices': json.loads(line.decode('utf-8'))['devices']}
             pre, pre_tok = rng.choice([(b'', []), (b'{"class":"VERSION","release":"3.25"}\r\n', ['V']), (b'$GPRMC,1*00\r\n', ['X']), (b'\r\n', ['X'])])
+            if rng.random() < 0.25:
+                # a recv() block of text that ends in the middle of a line (a cut NMEA sentence, a JSON fragment), then the next block
+                chunks.append(rng.choice([b'$GPGGA,123519,4807.038', b'{"class":"TPV","device":"/dev/tt', b'\r\n$GPRMC,1*00\r\n$GPGSV,3,1', b'["x", 1']))
+                ctoks.append(['X'])
+                per_chunk.append([])
             chunks.append(pre + line + b'\r\n')
             ctoks.append(pre_tok + [dv])
-        if rng.random() < 0.5:      # several lists in one recv(): all are processed before the loop can stop
+            per_chunk.append([devs])
+        if rng.random() < 0.5 and not any(c_ == ['X'] for c_ in ctoks):      # several lists in one recv(): all are processed before the loop can stop
             chunks = [b''.join(chunks)]
             ctoks = [[t for c_ in ctoks for t in c_]]
+            per_chunk = [[l_ for g_ in per_chunk for l_ in g_]]
         srv, SV = gpsd_server(requested or None)
         StubSocket.plan = {'data_chunks': list(chunks) + [Stop], 'reply': b'OK'}
         try:
@@ -573,7 +588,7 @@ def gpsd_setup_cases(res, prop, rng, n, PATHS, jtok=None, cases=None):
         sel, en = None, False
         # what the handshake must have selected by the time it stopped reading
         seen = []
-        for ch, grp in zip(chunks, [lists] if len(chunks) == 1 else [[l] for l in lists]):
+        for ch, grp in zip(chunks, per_chunk):
             for paths in grp:
                 if requested:
                     if requested in paths:
